@@ -14,7 +14,9 @@ for p in props:
     pid = p["id"]
     nthm = nref = npart = 0
     for f in [os.path.join(ROOT, "coq", "Props", pid + ".v")] + sorted(glob.glob(os.path.join(ROOT, "coq", "Props", pid + "gen*.v"))) + \
-            sorted(glob.glob(os.path.join(ROOT, "coq", "Props", pid + "bridge*.v"))):
+            sorted(glob.glob(os.path.join(ROOT, "coq", "Props", pid + "bridge*.v"))) + \
+            sorted(glob.glob(os.path.join(ROOT, "coq", "Props", pid + "all*.v"))) + \
+            sorted(glob.glob(os.path.join(ROOT, "coq", "Props", pid + "callers*.v"))):
         if os.path.exists(f):
             txt = re.sub(r"\(\*.*?\*\)", "", open(f).read(), flags=re.S)     # comments removed (non-nested is enough here)
             names = re.findall(r"^\s*Theorem\s+([\w']+)", txt, re.M)
@@ -50,7 +52,7 @@ for p in props:
     rows.append("| %s | %d (%d refuted-witness, %d partial) | %s/%s | %s | %s | %s | %d / %d / %d | %s | %s |" % (
         pid, nthm, nref, npart, cv.get("discharged", "?"), cv.get("obligations", "?"), tie, cv.get("evaluations", "?"),
         ev.get("wall_s", "?"), sc, sn, sm, ", ".join(known) or "-", len(fixed)))
-table = ("| id | theorems in Props (Cxx.v + Cxxgen.v) | obligations discharged (last run) | translator tie | cases (quick) | wall s | "
+table = ("| id | theorems in Props (Cxx.v + Cxxgen*/bridge/all/callers.v) | obligations discharged (last run) | translator tie | cases (quick) | wall s | "
          "seeded: concrete / no-input / missed by own check | known findings | fixed findings |\n|---|---|---|---|---|---|---|---|---|\n" + "\n".join(rows))
 dp = os.path.join(ROOT, "DESIGN.md")
 s = open(dp).read()
